@@ -161,6 +161,7 @@ type sUnit struct {
 	Dur    int64
 	Data   [][]byte
 	Sync   bool
+	Empty  bool // not a unit: the fragment carries a track fragment of this track without any sample
 }
 
 type sSegment struct {
@@ -296,6 +297,9 @@ func buildFMP4(tracks []sTrack, frags [][]sUnit, firstSeq uint32) ([]byte, error
 				pt = &fmp4.PartTrack{ID: tracks[u.Track].ID, BaseTime: uint64(u.DTS)}
 				byTrack[u.Track] = pt
 				order = append(order, u.Track)
+			}
+			if u.Empty {
+				continue
 			}
 			ps := &fmp4.PartSample{Duration: uint32(u.Dur), PTSOffset: int32(u.PTSOff), IsNonSyncSample: !u.Sync}
 			var err error
